@@ -147,7 +147,8 @@ func (s *Server) Set(ctx context.Context, req *gnmi.SetRequest) (*gnmi.SetRespon
 
 	for transactionEvent := range eventCh {
 		if (transactionEvent.Transaction.TransactionStrategy.Synchronicity == configapi.TransactionStrategy_ASYNCHRONOUS &&
-			transactionEvent.Transaction.Status.State == configapi.TransactionStatus_COMMITTED) ||
+			(transactionEvent.Transaction.Status.State == configapi.TransactionStatus_COMMITTED ||
+				transactionEvent.Transaction.Status.State == configapi.TransactionStatus_APPLIED)) ||
 			(transactionEvent.Transaction.TransactionStrategy.Synchronicity == configapi.TransactionStrategy_SYNCHRONOUS &&
 				transactionEvent.Transaction.Status.State == configapi.TransactionStatus_APPLIED) {
 			updateResults := make([]*gnmi.UpdateResult, 0)
